@@ -334,7 +334,10 @@ fn absorb(check: &Check, scen_idx: usize, seed: u64, params: &BTreeMap<String, u
 	}
 	if out.probes.get("nontrivial").copied().unwrap_or(0) > 0 {
 		a.nontrivial += 1;
-		a.fps.insert(out.sched_fp);
+		// (memory bound for very long thorough runs: beyond 3M distinct fingerprints the count is a lower bound)
+		if a.fps.len() < 3_000_000 {
+			a.fps.insert(out.sched_fp);
+		}
 	}
 	for (who, msg) in &out.panics {
 		*a.lib_panics.entry(format!("{who}: {}", panic_sig(msg))).or_insert(0) += 1;
